@@ -41,6 +41,8 @@ type CrashCfg struct {
 	BigTxn              bool        `json:"big_txn"`
 	Pressure            bool        `json:"pressure"`
 	CleanRestartInSetup bool        `json:"clean_restart_in_setup"`
+	LateTables          []TableSpec `json:"late_tables,omitempty"` // created by ddl ops in the middle of the history
+	PDDL                float64     `json:"p_ddl,omitempty"`
 }
 
 type rng struct{ p simrt.PRNG }
@@ -71,7 +73,7 @@ func (r *rng) Str(n int) string {
 	return string(b)
 }
 
-func genCrashCfg(r *rng, tier string) CrashCfg {
+func genCrashCfg(r *rng, tier string, prop string) CrashCfg {
 	c := CrashCfg{}
 	nt := 1 + r.Intn(2)
 	if r.Chance(0.15) {
@@ -127,6 +129,25 @@ func genCrashCfg(r *rng, tier string) CrashCfg {
 		c.CleanRestartInSetup = false
 		c.MaxImages = 80
 	}
+	// tables created in the middle of the history (crash points inside and around CREATE TABLE): the
+	// bulk of the C10 runs, a fraction of the others
+	if !c.Pressure && (prop == "C10" || r.Chance(0.15)) {
+		nl := 1 + r.Intn(3)
+		for i := 0; i < nl; i++ {
+			ts := TableSpec{Name: fmt.Sprintf([]string{"u%d", "u%d", "U%d", "Ux%d"}[r.Intn(4)], i), Cols: []Col{{"k", TInt}, {"v", TInt}}, Wide: []int{8, 30, 120}[r.Intn(3)]}
+			if r.Chance(0.6) {
+				ts.Cols = append(ts.Cols, Col{"s", TVarchar}) // (the statement generator knows k, v and s)
+			}
+			c.LateTables = append(c.LateTables, ts)
+		}
+		c.PDDL = []float64{0.1, 0.25, 0.5}[r.Intn(3)]
+		if prop == "C10" {
+			c.PAuto = []float64{0.1, 0.3, 0.5}[r.Intn(3)]
+			if r.Chance(0.3) {
+				c.Tables = c.Tables[:1]
+			}
+		}
+	}
 	return c
 }
 
@@ -145,6 +166,13 @@ func genOp(r *rng, c *CrashCfg, e *Exec, kg *keyGen) Op {
 		if e.open() == 0 {
 			if r.Chance(c.PCheckpt) {
 				return Op{Kind: "checkpoint"}
+			}
+			if c.PDDL > 0 && r.Chance(c.PDDL) {
+				for i := range e.Late {
+					if e.M.Table(e.Late[i].Name) == nil {
+						return Op{Kind: "ddl", T: i}
+					}
+				}
 			}
 			if r.Chance(c.PAuto) {
 				return Op{Kind: "auto", Stmt: genStmt(r, c, e, nil, kg)}
@@ -221,6 +249,9 @@ func visibleKeys(e *Exec, mt *MTxn, table string) []int32 {
 
 func genStmt(r *rng, c *CrashCfg, e *Exec, mt *MTxn, kg *keyGen) *Stmt {
 	ts := &c.Tables[r.Intn(len(c.Tables))]
+	if len(e.Created) > 0 {
+		ts = e.Created[r.Intn(len(e.Created))]
+	}
 	ks := visibleKeys(e, mt, ts.Name)
 	kind := r.Intn(10)
 	if len(ks) == 0 {
@@ -442,6 +473,7 @@ type CrashRun struct {
 	PreCrashDiv      []Divergence
 	Infeasible       string
 	EndPins          map[int32]int32
+	Specs            map[string]*TableSpec
 }
 
 func (cr *CrashRun) stat(k string, n int) {
@@ -463,6 +495,9 @@ func createTableSQL(ts *TableSpec) string {
 func minFramesFor(cfg *CrashCfg) int {
 	cols := 0
 	for _, t := range cfg.Tables {
+		cols += len(t.Cols)
+	}
+	for _, t := range cfg.LateTables {
 		cols += len(t.Cols)
 	}
 	// measured (pin vector after set-up): each skip-list index keeps three pages pinned for good
@@ -504,6 +539,17 @@ func (cr *CrashRun) execute(ops []Op, gen *rng) {
 	}
 	e := NewExec(s, m)
 	cr.Exec = e
+	e.Late = cfg.LateTables
+	cr.Specs = map[string]*TableSpec{}
+	for i := range cfg.Tables {
+		e.Created = append(e.Created, &cfg.Tables[i])
+		cr.Specs[cfg.Tables[i].Name] = &cfg.Tables[i]
+	}
+	for i := range cfg.LateTables {
+		// (a late table that is never created must be absent after every restart)
+		cr.Tables = append(cr.Tables, cfg.LateTables[i].Name)
+		cr.Specs[cfg.LateTables[i].Name] = &cfg.LateTables[i]
+	}
 	kg := &keyGen{}
 	setupRng := newRng(simrt.Mix(cr.Seed, 21))
 	// initial committed rows
@@ -593,6 +639,7 @@ type RecoverOutcome struct {
 	Panic   *PanicInfo
 	Tables  map[string][]string // canonical rows per table (nil entry: table missing / scan failed)
 	ScanErr map[string]string
+	Missing map[string]bool // table is not in the catalog
 	Events  []disk.SimEvent // I/O trace of the recovery run itself
 }
 
@@ -625,7 +672,12 @@ func recoverImage(dir string, im Image, frames int, tables []string, record bool
 	}
 	out.Tables = map[string][]string{}
 	out.ScanErr = map[string]string{}
+	out.Missing = map[string]bool{}
 	for _, tn := range tables {
+		if s.Cat.GetTableByName(tn) == nil {
+			out.Missing[tn] = true
+			continue
+		}
 		rows, _, res := s.ScanHeap(tn)
 		if res.Panic != nil {
 			out.ScanErr[tn] = res.Panic.String()
@@ -646,6 +698,16 @@ func recoverImage(dir string, im Image, frames int, tables []string, record bool
 // matchSnapshot: does the recovered state equal snapshot sn on every table?
 func matchSnapshot(out *RecoverOutcome, sn Snapshot, tables []string) (bool, string) {
 	for _, tn := range tables {
+		if _, exists := sn[tn]; !exists {
+			// the table had not been created in this snapshot: it must not be in the catalog
+			if !out.Missing[tn] {
+				return false, fmt.Sprintf("table %s exists but was not created", tn)
+			}
+			continue
+		}
+		if out.Missing[tn] {
+			return false, fmt.Sprintf("table %s is not in the catalog", tn)
+		}
 		got, ok := out.Tables[tn]
 		if !ok {
 			return false, fmt.Sprintf("table %s unreadable: %s", tn, out.ScanErr[tn])
